@@ -1058,16 +1058,8 @@ func (c *cluster) stepDeleteShard(id int, fail bool) bool {
 		}
 	}
 	if last {
-		c.mu.Lock()
-		ln := c.node(el.leader)
-		gone := ln == nil || ln.status != proto.ServingStatus_LEADER || ln.term != el.term
-		c.mu.Unlock()
-		if gone {
-			// the coordinator deletes the removed nodes because BecomeLeader returned; the model's DeleteRemoved asks
-			// for that node to be LEADER of the coordinator's term at this moment
-			c.stats["model-gap:delete-removed-after-leader-left"]++
-			c.skipModel("DeleteShard of a removed node after the elected leader crashed or was fenced (the model's DeleteRemoved requires it to be LEADER still)")
-		}
+		// (the model's DeleteRemoved is enabled once BecomeLeader has run for the elected leader of the term,
+		// whatever became of that leader since: the coordinator acts on the RPC's return)
 		c.tok("DR")
 	}
 	c.release(g, res, nil)
@@ -1171,6 +1163,7 @@ func (c *cluster) stepTruncate(l, f int, fail bool) bool {
 		c.release(g, nil, errUnavailable)
 		return true
 	}
+	logBefore := c.shadowLog(f)
 	res, err := n.rpcTruncate(req)
 	if err != nil {
 		c.event("truncate %d>%d to (%d,%d): error %v", l, f, req.HeadEntryId.Term, req.HeadEntryId.Offset, err)
@@ -1190,6 +1183,7 @@ func (c *cluster) stepTruncate(l, f int, fail bool) bool {
 		}
 	}
 	c.mon.onTruncate(call, l, f, req, res)
+	c.mon.onRolledBack(l, f, req.Term, logBefore, c.shadowLog(f))
 	c.release(g, res, nil)
 	return true
 }
